@@ -1,5 +1,27 @@
 import Rbacx.Generated
 import Rbacx.Proofs.HttpTranslated
+/-!
+  PER-RUN OBLIGATION (C10, and C17 for the parser hints): `HTTPPolicySource.load` / `etag` / the state-creating statements of
+  `__init__` (store/http_store.py) AS THE SOURCE HAS THEM NOW — `Rbacx.Generated.Src.http_load` / `http_etag` / `http_init`, written on
+  every run by harness/pytolean_http.py (plugin harness/extractors/src_translation_http.py) — against the hand-written model
+  `Rbacx.Reloader.httpLoad` / `httpEtag` (Model/Sources.lean) over which `Rbacx.C10.c10_converges_http_partial`,
+  `c10_http_cached_tag_counterexample`, `c10_http_remote_tag_converges` are stated.
+
+  Every theorem quantifies over ALL outcome parameters (the response object is a record of outcomes `PyH.Resp`); proofs are by the
+  compositional postcondition rules of `Proofs/HttpTranslated.lean` (one goal per leaf of the text) and by evaluation of a prefix under
+  the hypotheses that decide its tests — no enumeration.
+
+  * `http_load_eq`  refinement `Answers` (outcomes reflect the model world) + `StSim` (fields represent the model's client state)
+    ⇒ the translated `load` returns `httpLoad`'s result and leaves `httpLoad`'s next state.
+  * `http_etag_eq` / `http_etag_model`  `etag()` = the remembered tag; no collaborator parameter exists (F9).
+  * `http_load_failure_keeps_cache`, `http_load_etag_after`, `http_load_import_fails`, `http_load_transport_fails`,
+    `http_load_status_raises`, `http_load_not_modified`  what a failing / non-200 load changes: exactly nothing, except that a failure
+    AFTER the status check (parser, validator) has already remembered the new tag.
+  * `http_load_request`, `http_request_inm_model`  the one request and its `If-None-Match`.
+  * `http_load_parser_hints`, `http_load_parser_filename`  (C17 / F20) where a returned document comes from.
+  * `http_load_validates_before_caching`  with `validate_schema` only validated documents are cached or returned.
+  * `http_init_eq`.
+-/
 namespace Rbacx.Translated
 open Rbacx Rbacx.Generated Rbacx.PyH Rbacx.Reloader PyVal
 
@@ -168,15 +190,15 @@ theorem http_load_parser_hints (u : PyVal) (hi : imp = .ok u) (r : PyH.Resp)
   intro _ _ _
   apply satT_thenFlow
   · sat_steps
-    all_goals simp_all [Provenance]
+    all_goals simp_all
   intro _ _ _
   apply satT_thenFlow
   · sat_steps
-    all_goals simp_all [Provenance]
+    all_goals simp_all
   intro _ _ _
   apply satT_thenFlow
   · sat_steps
-    all_goals simp_all [Provenance]
+    all_goals simp_all
   intro s0 _ hs0
   apply satT_thenFlowN (N := fun (s : Src.http_State) c => s.policy_cache = st.policy_cache ∧ c = contentTypeOf r)
   · satn_steps
@@ -193,5 +215,124 @@ theorem http_load_parser_filename (parse' : PyVal → PyVal → PyVal → Except
     Src.http_load url headers vs imp get parse validate detect st = Src.http_load url headers vs imp get parse' validate detect st := by
   simp only [Src.http_load, h]
 
+/-! ### equality with the model `Rbacx.Reloader.httpLoad` -/
+
+/-- the 200 path in closed form: a body that denotes the stored content `b` (`Delivers`) is returned and cached when `b` parses,
+    and raises JSONDecodeError with the cache untouched when it does not — on either outcome the tag is already `newEtag` -/
+theorem http_load_ok_path (enc : Doc → PyVal) (b : Blob) (hdict : ∀ d, (enc d).isDict = true) (hvs : vs.truthy = false)
+    (u : PyVal) (hi : imp = .ok u) (r : PyH.Resp)
+    (hg : get url (sentHeaders headers st.etag) (.int 5) = .ok r) (h304 : pyEq (r.attr "status_code") (.int 304) = false)
+    (hr : r.has "raise_for_status" = true → ∃ x, r.callRaise = .ok x) (hE : HeadersRaiseExceptions r)
+    (hD : Delivers enc b r url parse) :
+    (∀ v, (Src.http_load url headers vs imp get parse validate detect st).2 = .ok v →
+      b.valid = true ∧ v = enc b.doc
+      ∧ (Src.http_load url headers vs imp get parse validate detect st).1 = { etag := newEtag st.etag r, policy_cache := enc b.doc })
+    ∧ (∀ e, (Src.http_load url headers vs imp get parse validate detect st).2 = .error e →
+      b.valid = false ∧ Rbacx.PyR.excOf e.cls = .jsonDecode
+      ∧ (Src.http_load url headers vs imp get parse validate detect st).1 = { etag := newEtag st.etag r, policy_cache := st.policy_cache }) := by
+  simp only [sentHeaders] at hg
+  simp only [Src.http_load, hi, bindE_ok, tryCatch_next, thenFlow_next, thenFlow_ite_next, hg, eq_truthy, h304, Bool.false_eq_true,
+    if_false, hvs]
+  refine satT_finish (I := fun (s : Src.http_State) => s = { etag := newEtag st.etag r, policy_cache := st.policy_cache })
+    (R := fun s v => b.valid = true ∧ v = enc b.doc ∧ s = { etag := newEtag st.etag r, policy_cache := enc b.doc })
+    (E := fun s e => b.valid = false ∧ Rbacx.PyR.excOf e.cls = .jsonDecode ∧ s = { etag := newEtag st.etag r, policy_cache := st.policy_cache }) ?_
+  apply satT_thenFlow' (I := fun (s : Src.http_State) => s = st) (I' := fun (s : Src.http_State) => s = st)
+  · sat_steps
+    all_goals simp_all
+  intro s _ hs
+  subst hs
+  apply satT_thenFlowN (N := fun s' v => s' = s ∧ v = etagHeaderOf r)
+  · satn_steps
+    all_goals header_leaf hE
+  rintro s' v ⟨rfl, rfl⟩
+  apply satT_thenFlow' (I := fun (s : Src.http_State) => s = { etag := newEtag s'.etag r, policy_cache := s'.policy_cache })
+    (I' := fun (s : Src.http_State) => s = { etag := newEtag s'.etag r, policy_cache := s'.policy_cache })
+  · sat_steps
+    all_goals (simp_all [newEtag, isStr_pand_truthy]) <;> (try (split <;> simp_all))
+  intro s _ hs
+  sat_steps
+  all_goals (
+    try (have hj := hD.json_ok _ _ ‹PyH.Resp.callJson _ _ = Except.ok _›)
+    try (have hje := hD.json_err _ _ ‹PyH.Resp.callJson _ _ = Except.error _›)
+    try (have hde := hD.decode_err _ _ ‹PyH.Resp.decode _ _ = Except.error _›)
+    try (have hp := hD.parse_ok _ _ _ ‹parse _ _ _ = Except.ok _›)
+    try (have hpe := hD.parse_err _ _ _ ‹parse _ _ _ = Except.error _›)
+    try (have hce := hE _ _ ‹PyH.Resp.hget _ _ = Except.error _›)
+    simp_all [isInstance_dict_truthy, PyVal.isDict])
+
+/-- `If-None-Match` as the model has it: when the user's headers do not set it, the request carries the model's `inm` -/
+theorem http_request_inm_model (kvs : List (String × PyVal)) (w : HttpW) (hu : lookup "If-None-Match" kvs = Option.none) :
+    (sentHeaders (.dict kvs) (Rbacx.PyR.tagVal w.cachedTag)).get "If-None-Match" = Rbacx.PyR.tagVal w.inm := by
+  rw [sentHeaders_inm, hu]
+  unfold HttpW.inm
+  cases hc : w.cachedTag with
+  | none => simp [Rbacx.PyR.tagVal, PyVal.truthy]
+  | some t =>
+    by_cases ht : t = ""
+    · simp [Rbacx.PyR.tagVal, PyVal.truthy, ht]
+    · simp [Rbacx.PyR.tagVal, PyVal.truthy, ht]
+
+/-- `load()` as written now IS the model's `httpLoad`: when the two fields represent the model's client state (`StSim`) and the
+    outcome of the one request and of the parsers reflect the model's world (`Answers`: transport fault / error status / 404 / 304 /
+    200 whose `ETag` header is the server's tag and whose body denotes the stored content), without schema validation, the
+    translated `load` returns what `httpLoad` returns and leaves the fields representing `httpLoad`'s next state: the tag is
+    remembered iff the server sent a non-empty `ETag` on a non-304 answer, a 304 answers the cached policy (`{}` when none), an error
+    status raises and changes nothing, a body that does not parse raises JSONDecodeError AFTER the tag was remembered -/
+theorem http_load_eq (enc : Doc → PyVal) (w : HttpW) (hdict : ∀ d, (enc d).isDict = true) (hempty : enc emptyDoc = .dict [])
+    (hvs : vs.truthy = false) (u : PyVal) (hi : imp = .ok u) (hs : StSim enc w st.etag st.policy_cache)
+    (hA : Answers enc w url parse (get url (sentHeaders headers st.etag) (.int 5))) :
+    ResSim enc (httpLoad w).1 (Src.http_load url headers vs imp get parse validate detect st).2
+    ∧ StSim enc (httpLoad w).2 (Src.http_load url headers vs imp get parse validate detect st).1.etag
+        (Src.http_load url headers vs imp get parse validate detect st).1.policy_cache := by
+  rcases hs with ⟨hse, hsc⟩
+  generalize hgq : get url (sentHeaders headers st.etag) (.int 5) = g at hA
+  cases hA with
+  | transportFault c e hf hc =>
+    rw [http_load_transport_fails url headers vs imp get parse validate detect st u hi e hgq]
+    simp [httpLoad, hf, ResSim, StSim, hc, hse, hsc]
+  | statusFault c r e hf h304 hh hr hc =>
+    rw [http_load_status_raises url headers vs imp get parse validate detect st u hi r hgq h304 e hr hh]
+    simp [httpLoad, hf, ResSim, StSim, hc, hse, hsc]
+  | notFound r e hf hsv h304 hh hr hc =>
+    rw [http_load_status_raises url headers vs imp get parse validate detect st u hi r hgq h304 e hr hh]
+    simp [httpLoad, hf, hsv, ResSim, StSim, hc, hse, hsc]
+  | notModified b r hf hsv hnm h304 =>
+    rw [http_load_not_modified url headers vs imp get parse validate detect st u hi r hgq h304]
+    simp only [httpLoad, hf, hsv, hnm, if_true]
+    cases hcd : w.cachedDoc with
+    | none => simp_all [ResSim, StSim, PyVal.isNone]
+    | some d =>
+      have := hdict d
+      cases hed : enc d <;> simp_all [ResSim, StSim, PyVal.isNone, PyVal.isDict]
+  | ok b r hf hsv hnm h304 hr hE htag hD =>
+    have key := http_load_ok_path url headers vs imp get parse validate detect st enc b hdict hvs u hi r hgq h304 hr hE hD
+    have ht := newEtag_model w b r htag
+    rw [hse] at key
+    rw [ht] at key
+    simp only [httpLoad, hf, hsv, hnm]
+    generalize Src.http_load url headers vs imp get parse validate detect st = res at key ⊢
+    rcases res with ⟨s, (e | v)⟩
+    · obtain ⟨hv, hc, rfl⟩ := key.2 e rfl
+      simp [hv, ResSim, StSim, hc, hsc]
+    · obtain ⟨hv, rfl, rfl⟩ := key.1 v rfl
+      simp [hv, ResSim, StSim]
+
 end
+
+#print axioms http_load_eq
+#print axioms http_load_ok_path
+#print axioms http_etag_eq
+#print axioms http_etag_model
+#print axioms http_init_eq
+#print axioms http_load_failure_keeps_cache
+#print axioms http_load_etag_after
+#print axioms http_load_import_fails
+#print axioms http_load_transport_fails
+#print axioms http_load_status_raises
+#print axioms http_load_not_modified
+#print axioms http_load_request
+#print axioms http_request_inm_model
+#print axioms http_load_parser_hints
+#print axioms http_load_parser_filename
+#print axioms http_load_validates_before_caching
 end Rbacx.Translated
